@@ -102,6 +102,10 @@ fn parse(text: &str, allow_substvar: bool) -> Parse {
                     Some(R_CURLY) => {
                         break;
                     }
+                    None => {
+                        self.error("expected identifier or : but got end of file".to_string());
+                        break;
+                    }
                     e => {
                         self.error(format!("expected identifier or : but got {:?}", e).to_string());
                     }
@@ -246,6 +250,10 @@ fn parse(text: &str, allow_substvar: bool) -> Parse {
                         }
                         Some(R_BRACKET) => {
                             self.bump();
+                            break;
+                        }
+                        None => {
+                            self.error("Expected architecture name or '!' or ']'".to_string());
                             break;
                         }
                         _ => {
